@@ -195,6 +195,8 @@ def _edit_nested(I, cls, blk):
     np = I.np
     if cls == "optical":
         blk.channels[0].camera_viewport.size = np.array([1024, 768], dtype="<i4")
+    elif cls == "calib":
+        blk.cam_data[0].view_port.size = np.array([1024, 768], dtype="<i4")
     elif cls == "fpcal":
         blk[0].size = np.array([9.0, 9.0], dtype="<f4")
     elif cls == "data3d":
@@ -231,7 +233,7 @@ def _edit_in_place(I, cls, blk):
 def decode_case(cls, mutation):
     def h(I):
         I.fresh_modules()
-        spec = SPEC[cls]
+        spec = ALL[cls]
         src = spec["new"](I)
         spec["add"](I, src, "s0")
         data = B.encode(I, src)
@@ -355,4 +357,6 @@ def instances(tier):
             out.append(Instance(f"{cls}.explicit", explicit_case(cls), goals=["done"]))
         for m in ["add", "edit", "edit_nested"] + (["remove"] if spec["remove"] else []):
             out.append(Instance(f"{cls}.decode.{m}", decode_case(cls, m), goals=["done"]))
+    for m in ["add", "edit_nested"]:
+        out.append(Instance(f"calib.decode.{m}", decode_case("calib", m), goals=["done"]))
     return out
